@@ -82,6 +82,30 @@ def snap_axes_to_integers(ds):
     return True
 
 
+def groups_only_in_one_master(rng, ds):
+    """A class pair whose two kerning groups exist in ONE non-default full master only."""
+    di = masters.default_source_index(ds)
+    full = [s_["ufo"] for i, s_ in enumerate(ds["sources"]) if not s_.get("layerName") and i != di]
+    full = [u for u in full if u != ds["sources"][di]["ufo"]]
+    if not full:
+        return False
+    u = ds["ufos"][rng.choice(full)]
+    grouped = {m for ms in (u.get("groups") or {}).values() for m in ms}
+    for other in ds["ufos"]:
+        grouped |= {m for ms in (other.get("groups") or {}).values() for m in ms}
+    free = [g["name"] for g in u["glyphs"] if g["name"] not in grouped and g["name"] != ".notdef"]
+    if len(free) < 2:
+        return False
+    a, b = rng.sample(free, 2)
+    u.setdefault("groups", {})
+    u["groups"]["public.kern1.ONLYHERE"] = [a]
+    u["groups"]["public.kern2.ONLYHERE"] = [b]
+    u.setdefault("kerning", []).append(["public.kern1.ONLYHERE", "public.kern2.ONLYHERE",
+                                        rng.choice([-45, -30, 25])])
+    ds.setdefault("meta", {})["groups_only_in_one_master"] = [a, b]
+    return True
+
+
 def min_master_gap(ds):
     """Smallest distance between two distinct source positions on one axis, as a fraction of the
     axis' design range."""
@@ -115,6 +139,8 @@ def gen(rng, idx, tier):
         # masters (a variable font cannot vary a 2x2: the glyph has to be decomposed)
         from vf.props.c09 import later_component_2x2
         later_component_2x2(rng, ds)
+    if rng.random() < 0.12:
+        groups_only_in_one_master(rng, ds)
     if rng.random() < 0.7:
         snap_axes_to_integers(ds)
     func = rng.choice(["compileVariableTTF", "compileVariableCFF2"])
@@ -216,6 +242,8 @@ def run(case):
     is_tt = func == "compileVariableTTF"
     doc, fonts = build_designspace(ds, case["lib"])
     fkw = {}
+    if (ds.get("meta") or {}).get("groups_only_in_one_master"):
+        bump("groups_only_in_one_master_families")
     if case.get("filters"):
         import ufo2ft.filters as F
         fkw["filters"] = [...] + [getattr(F, n)(pre=True) for n in case["filters"]]
